@@ -204,6 +204,8 @@ def run(pid, tier, replay=None):
     for k, v in sorted(agg['counters'].items()):
         print('   count_%s=%s' % (k, v))
     for k, v in sorted(agg['maxima'].items()):
+        if '[' in k:
+            continue
         print('   max_%s=%.3g' % (k, v))
     return rc
 
